@@ -383,7 +383,12 @@ fn expect_match(run: &mut Run, b: &Built, out: &RecvOut, what: &str, kind: &str,
         match (b.cfg.ext, exts) {
             (true, Some(e)) if e.extensions.len() == n => {}
             (false, None) => {}
-            _ => run.fail("c02-extensions", desc()),
+            _ => {
+                run.fail("c02-extensions", desc());
+                // the same fact is C14's through the receive path: the objects of a well-formed extension structure
+                // reach the response (as many as were encoded)
+                run.fail("c14-wire-extensions", desc());
+            }
         }
     }
     if unmodified && b.cell.strat == 'd' && !b.cfg.v6 {
